@@ -54,6 +54,17 @@ CLAIMED.update({
                 ref='5 (C18)'),
 })
 
+CLAIMED.update({
+    'C19': dict(cat='other', tech='guard-cut and interval extraction over the CFG of work(), provenance of call arguments, conservation law and must-definition analysis for copy mode',
+                text='Decides: the decompressor is entered exactly for a full 4-byte header in BZh1..BZh9 (interval derived '
+                     'from the comparisons guarding the call); copy() is reachable only with -f and standard output and '
+                     'everything else fails; the sniffed 0-4 bytes are written first with their true length; copy-mode '
+                     'slot constants agree; the copy pipeline conserves buffers and output slots on every path; '
+                     'termination is signalled exactly on eof && all slots returned; buffers are written unchanged with '
+                     'the byte count read; copy-mode state is re-initialised per operand. Does not decide pipe behaviour.',
+                ref='5 (C19)'),
+})
+
 NA = {
     'C01': 'round-trip equality is a numerical fact about RLE/BWT/MTF/Huffman and its inverse over all byte strings; '
            'no sound static argument in reach bounds it (DESIGN.md section 6); its shape-level fragments are decided '
